@@ -1367,6 +1367,9 @@ def _batch_size(data: Any):
       ) from e
 
 
+batch_size = _batch_size
+
+
 def rebatched_args(
     tuples: Iterator[tuple[_ValueT, ...]],
     batch_size: int = 0,
